@@ -4,7 +4,7 @@ import re
 from common import *  # noqa
 
 INVS = ['.', 'inv', './inv', 'inv/', 'a/../inv', './a/./inv', 'inv//', 'x/y']
-DIRS = ['nodes', 'classes', ' n ', 'n', 'c/d', 'nn/', './m', '1', 'true', 'no', 'a b', 'null', 'targets', 'k#1', "it's"]
+DIRS = ['nodes', 'classes', ' n ', 'n', 'c/d', 'nn/', './m', '1', 'true', 'no', 'a b', 'null', 'targets', 'k#1', "it's", '/abs/n', '/abs/c/d', '/srv']
 # (each pattern is a regular expression of its own: '(a' and 'b)' are both rejected although their alternation would
 #  compile, and the flag of '(?i)nope' does not extend to the patterns listed after it)
 PATS = ['.*', '^zz\\.', 'gone$', 'c[0-9]+', '^$', 'a|b', 'nope', '(', '[a', '*x', '', '(a', 'b)', '(?i)nope', '(?i)^zz']
